@@ -100,8 +100,9 @@ def r1_inverse(rep, facts, g, a):
         if mm:
             width, case = int(mm.group(1)), mm.group(2)
             hx = [r for r in rows if ord('u') in r[0]]
-            hexes = [x for x in g.subterms(hx[0][1]['p']) if x['op'] == 'ref' and last_seg(x['fn']) == 'hexescape'] if hx else []
-            n = g.generic_env(hexes[0]).get('N') if hexes else None
+            hexes = [x for x in g.subterms(hx[0][1]['p']) if x['op'] in ('ref', 'call') and last_seg(x['fn']) == 'hexescape'] if hx else []
+            env_ = g.value_env(hexes[0]) if hexes else {}
+            n = env_.get('N') if 'N' in env_ else (list(env_.values())[0] if len(env_) == 1 else None)
             ok = width == n == 4
             detail = f'writer width {width}{case}, parser `u` takes {n}'
     rep.check(R, 'fallback|\\uXXXX', ok, detail, f'the \\u fallback and the parser disagree: {detail}', loc)
